@@ -2,6 +2,7 @@
    write (C18).  The cross-node statement is checked by the monitors on all pairs of logs. *)
 From Coq Require Import List NArith.
 From RaftV Require LogMatching.
+From RaftV Require AppendRefine.
 From RaftV Require Import Base Types Quorum Progress Tracker Storage Log Raft RawNode QuorumProofs RaftMono RaftRouting NodeProps PreVoteProofs LocalProofs FlowProofs LogProofs ConfProofs.
 Import ListNotations.
 Open Scope N_scope.
@@ -45,3 +46,63 @@ Theorem C03_log_matching_protocol : forall g a b i ea eb,
   firstn (S i) (LogMatching.logs g (LogMatching.KNode a)) = firstn (S i) (LogMatching.logs g (LogMatching.KNode b)).
 Proof. exact LogMatching.log_matching. Qed.
 Print Assumptions C03_log_matching_protocol.
+
+
+(* ---------- the node model follows the protocol rule (Proofs/AppendRefine.v) ---------- *)
+
+(* The logical log of a node ([lview]: stable storage below the unstable offset, then the unstable
+   tail; or the pending snapshot followed by the tail).  raftLog.maybeAppend (matchTerm,
+   findConflict, append / truncateAndAppend, as transcribed in Model/Log.v and compared with
+   /repo in lockstep) either refuses and changes nothing, or leaves a well-formed log whose
+   logical view is the abstract maybe-append of the old view. *)
+Theorem C03_maybe_append_refines : forall st l prev pt ents c l' r,
+  AppendRefine.l_wf st l -> contig (prev + 1) ents -> a_base (AppendRefine.lview st l) <= l_committed l ->
+  l_maybe_append st l prev pt ents c = Ok (l', r) ->
+  AppendRefine.l_wf st l' /\
+  match AppendRefine.a_maybe_append (AppendRefine.lview st l) prev pt ents with
+  | Some a' => AppendRefine.lview st l' = a' /\ r = Some (prev + nlen ents)
+  | None => l' = l /\ r = None
+  end.
+Proof. exact AppendRefine.l_maybe_append_view. Qed.
+Print Assumptions C03_maybe_append_refines.
+
+(* ... and on a log that was never compacted the abstract maybe-append is exactly the
+   FollowerAppend rule of Spec/LogMatching.v: it accepts iff the (prev index, prev term) test of
+   the rule holds, and the new log is the rule's [fappend] (for any naming [pay] of payloads). *)
+Theorem C03_maybe_append_is_protocol_rule : forall (pay : entry -> N) a prev pt ents,
+  a_base a = 0 -> a_base_term a = 0 -> contig (prev + 1) ents ->
+  match AppendRefine.a_maybe_append a prev pt ents with
+  | Some a' =>
+      LogMatching.prev_term (AppendRefine.absl pay a) (N.to_nat prev) = Some pt /\
+      AppendRefine.absl pay a' = LogMatching.fappend (AppendRefine.absl pay a) (N.to_nat prev) (map (AppendRefine.absent pay) ents) /\
+      a_base a' = 0 /\ a_base_term a' = 0
+  | None => LogMatching.prev_term (AppendRefine.absl pay a) (N.to_nat prev) <> Some pt
+  end.
+Proof. exact AppendRefine.a_maybe_append_is_follower_rule. Qed.
+Print Assumptions C03_maybe_append_is_protocol_rule.
+
+(* the leader's append (entries stamped lastIndex+1..) extends the logical log at its end: the
+   LeaderAppend rule *)
+Theorem C03_leader_append_refines : forall st l ents l' e0 rest,
+  AppendRefine.l_wf st l -> ents = e0 :: rest -> contig (e_index e0) ents ->
+  e_index e0 = a_last (AppendRefine.lview st l) + 1 ->
+  l_append st l ents = Ok l' ->
+  AppendRefine.l_wf st l' /\
+  AppendRefine.lview st l' = mkAbs (a_base (AppendRefine.lview st l)) (a_base_term (AppendRefine.lview st l))
+                                   (a_ents (AppendRefine.lview st l) ++ ents).
+Proof. exact AppendRefine.l_append_end_view. Qed.
+Print Assumptions C03_leader_append_refines.
+
+(* the MsgApp handler of the node (handleAppendEntries): the follower's logical log is left alone
+   or changes exactly as the abstract maybe-append of the message's (prev index, prev term,
+   entries) *)
+Theorem C03_msgapp_handler_refines : forall st r m r',
+  AppendRefine.l_wf st (r_log r) -> contig (m_index m + 1) (m_entries m) ->
+  a_base (AppendRefine.lview st (r_log r)) <= l_committed (r_log r) ->
+  handle_append_entries st r m = Ok r' ->
+  AppendRefine.l_wf st (r_log r') /\
+  (AppendRefine.lview st (r_log r') = AppendRefine.lview st (r_log r) \/
+   AppendRefine.a_maybe_append (AppendRefine.lview st (r_log r)) (m_index m) (m_logterm m) (m_entries m)
+     = Some (AppendRefine.lview st (r_log r'))).
+Proof. exact AppendRefine.handle_append_entries_view. Qed.
+Print Assumptions C03_msgapp_handler_refines.
